@@ -12,7 +12,7 @@ from . import c16
 sys.set_int_max_str_digits(0)
 
 LIMITS = {"search": 1000, "ud_calls": 5000, "size": 50_000_000, "time_ms": 3000, "depth": 2000, "recursion": 100000}
-WATCHDOG = 25.0
+WATCHDOG = 90.0   # generous: the machine may be loaded; a real hang never answers
 
 
 def run_timed(srcs, limits, timeout=WATCHDOG):
@@ -52,7 +52,7 @@ CONSUMERS = ["{g}.take(1).to_array()", "{g}.to_array()", "{g}.len()", "{g}.last(
 FIXED = [
     "count().nth(0, (x:int)->{x < 0})", "count().map((x:int)->{x}).take(10**9).to_array()", "range(10**15).to_array()",
     "range(10**12).sum()", "count().take(10**15).len()", "count().take(10**9).to_generator().len()",
-    "binom(10**6, 5*10**5)", "binom(2**70, 2**69)", "factorial(10**5)", "2**(2**22)", "digits(10**1000, 2).len()",
+    "binom(10**6, 5*10**5)", "binom(2**70, 2**69)", "factorial(10**5)", "2**(2**20)", "digits(10**1000, 2).len()",
     "digits(10**1000, 1).len()", "digits(5, 0).len()", "multinom([10**5, 10**5])", "multinom([2**64, 2**64])",
     "count().take(10**7).sort().len()", "('a' * 10**12).len()", "count().take(10**9).to_array().len()",
     "count().filter((x:int)->{x < 0}).take(1).to_array()", "count().take(10**9).map((x:int)->{x}).sum()",
